@@ -12,8 +12,8 @@ CB = {"FileSystemMovedEvent": "on_moved", "FileMovedEvent": "on_moved", "DirMove
       "FileCreatedEvent": "on_created", "DirCreatedEvent": "on_created", "FileModifiedEvent": "on_modified", "DirModifiedEvent": "on_modified",
       "FileClosedEvent": "on_closed", "FileClosedNoWriteEvent": "on_closed_no_write", "FileOpenedEvent": "on_opened"}
 ISDIR = {"DirMovedEvent", "DirDeletedEvent", "DirCreatedEvent", "DirModifiedEvent"}
-PATHS = ["a", "A", "a.py", "d/a.py", "b.PY"]
-PATS = ["*", "*.py", "a*", "A*", "*.PY"]
+PATHS = ["a", "A", "a.py", "d/a.py", "b.PY", "w\\a.py", "C:\\w\\b.PY"]   # the last two: separators / drive prefix as pathlib's Windows flavour (the case-insensitive matcher) reads them
+PATS = ["*", "*.py", "a*", "A*", "*.PY", "a.py"]
 RXS = [r".*", r".*\.py", r"a", r"A.*", r".*\.tmp"]
 METHODS = ["on_any_event", "on_moved", "on_created", "on_deleted", "on_modified", "on_closed", "on_closed_no_write", "on_opened"]
 
